@@ -1,8 +1,9 @@
 """Per-property configuration of the driver: which harness packages decide the
 property, how they are sharded, their wall budgets, claimed level, assumptions."""
 
-def G(pkg, race=False, shards=None, timeout=None, run=None, env=None, tiers=None):
+def G(pkg, race=False, shards=None, timeout=None, run=None, env=None, tiers=None, race_classified=False):
     g = {"pkg": pkg, "race": race}
+    if race_classified: g["race_classified"] = True
     if shards: g["shards"] = shards
     if timeout: g["timeout"] = timeout
     if run: g["run"] = run
@@ -213,11 +214,29 @@ CONFIG = {
             "uses the verif hooks oneway.NewForVerif / StartProcessForVerif; the client's write time-out is shortened to 5 s",
         ],
     },
+    "C10": {
+        "level": "exploration",
+        "rule": "C10: exhaustive self-deadlock sweep over every public method of the 20 collection types; generated concurrent programs checked for linearizability (porcupine) and structural integrity; the same kind of programs under the race detector with classified reports.",
+        "groups": [G("c10", run="TestMethodSelfDeadlock|TestLinearizability", shards={"quick": 4, "thorough": 16}, timeout={"quick": 600, "thorough": 3000}),
+                   G("c10", race=True, race_classified=True, run="TestRaceDetector|TestKnownFindings", shards={"quick": 4, "thorough": 16}, timeout={"quick": 600, "thorough": 3000})],
+        "assumptions": [
+            "the sequential specification used by the linearizability check is the structure's own single-goroutine behaviour (replayed on a fresh instance); that behaviour is checked against independent models by C09/C11/C12/C13",
+            "the Go scheduler is not controlled: concurrent sub-checks sample schedules (spin barrier, 16 cores); the race detector reports unsynchronised access pairs from happens-before, not from unlucky timing; absence of a report is not absence of a bad interleaving",
+            "a blocking dequeue (Get) on a queue without a producer waits by contract and is not issued; GetTimeout is issued with millisecond time-outs",
+            "self-deadlock is decided from goroutine stacks (parked on a sync primitive inside golib in three consecutive samples on an instance nobody else touches), not from a wall-clock bound",
+            "open known finding F25: race reports whose racing read is Size/IsEmpty/IsFull (unlocked readers) are counted, not reported as new violations",
+        ],
+    },
 }
 
 NOT_APPLICABLE = {}
 
 MANIFEST_TEXT = {
+    "C10": {
+        "technique": "exhaustive enumeration of (type, method, state) for self-deadlock; generated concurrent programs with linearizability checking (porcupine) and race-detector report classification",
+        "level_text": "Exhaustive over every exported method of the 20 collection types in three states for the self-deadlock clause (decisive); generated-program exploration for linearizability (invocation/response histories checked with porcupine against the sequential behaviour, structural audit after every run) and for data races (binary built with -race, each report attributed to its case and classified).",
+        "level_note": "Schedules are sampled, not enumerated: a violation that needs a narrow interleaving may be missed. porcupine's verdicts are sound for the interleaving that happened.",
+    },
     "C06": {
         "technique": "stateful property-based testing with fault injection: generated send/burst/fault histories against a harness-owned TCP peer, frame-stream well-formedness and exactly-once/order accounting oracle",
         "level_text": "Generated-history exploration: sends of packs from 30 bytes to 2.5 MB (beyond the 2 MiB write buffer), concurrent bursts from up to 8 goroutines, peer faults at generated byte offsets (mid-header, mid-payload, between frames, reset, listener down/up); every byte every connection received is parsed into frames and compared with reference frames; healthy-connection delivery, recovery after the first reported error and per-sender order are asserted.",
